@@ -18,7 +18,7 @@ def chain_scalar_lemma(U, name, ctx, R, ix, d, entry, axioms, extra_last=None):
     Returns (prod, facts) - the product function and its defining axioms."""
     prod = z3.Function('prod_' + name, z3.IntSort(), z3.RealSort())
     pdef = [prod(0) == entry(z3.IntVal(0)),
-            z3.ForAll([k_, k2_], z3.Implies(z3.And(k_ >= 0, k2_ == k_ + 1, k2_ < d), prod(k2_) == prod(k_) * entry(k2_)),
+            z3.ForAll([k_, k2_], z3.Implies(z3.And(k_ >= 0, k2_ == k_ + 1, k2_ < d), prod(k2_) == T.rmul(prod(k_), entry(k2_))),
                       patterns=[z3.MultiPattern(prod(k_), prod(k2_))])]
     kk = z3.Int('kk')
     U.lemma(f'chain-is-the-running-product({name}).base', ctx + pdef, T.chain(R, ix, 0) == T.sc(prod(0)), axioms=axioms, mode='ematch',
@@ -80,20 +80,23 @@ def u_delta(U):
         tt = z3.Int('tt')
         U.post('rank-one-cores-of-the-requested-mode-sizes', p,
                z3.Implies(z3.And(0 <= tt, tt < d), z3.And(T.d0(R[tt]) == 1, T.d1(R[tt]) == narr[tt], T.d2(R[tt]) == 1)), axioms=AXE, mode='ematch')
-        entry = lambda k: z3.If(k == d - 1, s_, 1) * z3.If(ix[k] == iarr[k], w, 0)
+        hit = lambda k: z3.If(ix[k] == iarr[k], w, 0)
+        entry = lambda k: z3.If(k == d - 1, T.rmul(s_, hit(k)), hit(k))
         prod, facts = chain_scalar_lemma(U, 'delta', ctx, R, ix, d, entry, AXE)
         # match(k): the multi-index agrees with the position on modes 0..k ;  wpow(k) = w^(k+1)
         match = z3.Function('match', z3.IntSort(), z3.BoolSort())
         wpow = z3.Function('wpow', z3.IntSort(), z3.RealSort())
         mdef = [match(0) == (ix[0] == iarr[0]), wpow(0) == w,
                 z3.ForAll([k_, k2_], z3.Implies(z3.And(k_ >= 0, k2_ == k_ + 1, k2_ < d),
-                                               z3.And(match(k2_) == z3.And(match(k_), ix[k2_] == iarr[k2_]), wpow(k2_) == wpow(k_) * w)),
+                                               z3.And(match(k2_) == z3.And(match(k_), ix[k2_] == iarr[k2_]), wpow(k2_) == T.rmul(wpow(k_), w))),
                           patterns=[z3.MultiPattern(match(k_), match(k2_)), z3.MultiPattern(wpow(k_), wpow(k2_))])]
         kk = z3.Int('kk')
-        Q = lambda k: prod(k) == z3.If(k == d - 1, s_, 1) * z3.If(match(k), wpow(k), 0)
+        Q = lambda k: prod(k) == z3.If(k == d - 1, T.rmul(s_, z3.If(match(k), wpow(k), 0)), z3.If(match(k), wpow(k), 0))
         U.lemma('product-is-w^(k+1)-on-the-matching-prefix-else-0.base', ctx + facts + mdef, Q(z3.IntVal(0)), axioms=AXE, kind='lemma-base')
-        U.lemma('product-is-w^(k+1)-on-the-matching-prefix-else-0.step', ctx + facts + mdef + [kk >= 1, kk < d, Q(kk - 1)], Q(kk), axioms=AXE,
-                kind='lemma-step')
+        lc = [T.rmul(wpow(kk - 1), T.rmul(s_, w)) == T.rmul(s_, T.rmul(wpow(kk - 1), w))]    # a (s b) = s (a b), one instance
+        U.lemma('product-is-w^(k+1)-on-the-matching-prefix-else-0.step', ctx + facts + mdef + [kk >= 1, kk < d, Q(kk - 1)] + lc, Q(kk),
+                axioms=AXE, kind='lemma-step')
+        U.lemmas.append('instance of left-commutativity of the real product: a*(s*b) = s*(a*b)')
         # value: s * w^d at the position, 0 elsewhere; and s * w^d = v by the root / sign definitions
         root = p.ghost.get('root', [])
         if root:
@@ -102,7 +105,15 @@ def u_delta(U):
             powfact = [wpow(d - 1) == absv]          # w^d = |v|: defining property of the d-th root (A-REAL), w = |v| ** (1/d)
             U.lemmas.append('L-ROOT: (x ** (1/d)) ** d = x for x >= 0 (used as wpow(d-1) = |v|)')
         else:
-            powfact = [z3.ForAll([kk], wpow(kk) == 1, patterns=[wpow(kk)])] if z3.is_rational_value(z3.simplify(w)) else []
-        U.post('value-is-v-at-the-position-and-0-elsewhere', ctx + facts + mdef + [Q(d - 1)] + powfact,
-               T.ent(T.chain(R, ix, d - 1), 0, 0) == z3.If(match(d - 1), v0, 0), axioms=AXE)
-        U.canary('canary-everywhere-v', ctx + facts + mdef + [Q(d - 1)] + powfact, T.ent(T.chain(R, ix, d - 1), 0, 0) == v0, axioms=AXE)
+            # tiny / zero v: the code uses w = 1, so every power of w is 1 (induction) and the sign factor carries the value
+            U.post('tiny-values-are-carried-by-the-last-core-alone', p, z3.And(w == 1, s_ == v0), axioms=AXE)
+            U.lemma('powers-of-one.base', ctx + mdef + [w == 1], wpow(0) == 1, axioms=AXE, kind='lemma-base')
+            U.lemma('powers-of-one.step', ctx + mdef + [w == 1, kk >= 1, kk < d, wpow(kk - 1) == 1], wpow(kk) == 1, axioms=AXE, kind='lemma-step')
+            absv = z3.RealVal(1)
+            powfact = [wpow(d - 1) == 1]
+        # two steps: (1) equational: the entry is rmul(s, |v|) at the position and 0 elsewhere; (2) arithmetic: s * |v| = v
+        U.post('value-is-s*w^d-at-the-position-and-0-elsewhere', ctx + facts + mdef + [Q(d - 1)] + powfact,
+               T.ent(T.chain(R, ix, d - 1), 0, 0) == z3.If(match(d - 1), T.rmul(s_, absv), 0), axioms=AXE, mode='ematch')
+        U.post('sign-times-modulus-is-v', list(p.pc), s_ * absv == v0)
+        U.lemmas.append('rmul(x, y) = x * y (the abstract product of the element theory is the real product)')
+        U.canary('canary-everywhere-v', ctx + facts + mdef + [Q(d - 1)] + powfact, T.ent(T.chain(R, ix, d - 1), 0, 0) == T.rmul(s_, absv), axioms=AXE)
